@@ -117,8 +117,7 @@ _RETR = {cls: _own_retraction(cls) for cls in B.CLS_OF.values()}
 
 
 def check(run, cases=None):
-    if cases is None:
-        derivative_monitors(run)
+    monitors = cases is None
     cases = cases if cases is not None else [c for c in PC.gen_cases(run.tier, run.seed + 2) if not c.get('lite')]
     old = EC.headroom_class
     EC.headroom_class = PC.headroom_class
@@ -126,6 +125,8 @@ def check(run, cases=None):
         pairs = EC.evaluate(cases, 6, 'MC_C10', run, spec='MC_PoseCases', invariants=('InputsUnit', 'GroupLaws'))
     finally:
         EC.headroom_class = old
+    if monitors:                 # (after the model evaluation, so that the evidence of a run they abort still shows what TLC covered)
+        derivative_monitors(run)
     run.rule = ('lattice pairs (a, b) and a point per case, 12 methods x 4 pose kinds; TLC differentiates the named operation along every '
                 'tangent direction of the named operand by dual numbers; the code Jacobian chained with the exact boxplus Jacobian must equal it; '
                 'non-trivial = distinct (case, method) whose exact derivative is not a 0/+-1 pattern')
